@@ -144,13 +144,13 @@ def write_replay(path, d, extra_comments=()):
             f.write('\n')
 
 
-def replay_once(exe, spec, path, timeout=120):
+def replay_once(exe, spec, path, timeout=60):
     """returns (failed, output)"""
     try:
         if spec.get('kind') == 'script':
             cmd = [spec.get('interp', 'python3'), exe, 'replay', path]
         else:
-            cmd = [exe, 'replay', path, '--watchdog', '15']
+            cmd = [exe, 'replay', path, '--watchdog', '4']
         r = subprocess.run(cmd, stdout=subprocess.PIPE, stderr=subprocess.STDOUT, text=True, timeout=timeout,
                            env=run_env(spec), errors='replace')
         return r.returncode != 0, r.stdout
@@ -169,9 +169,11 @@ def minimise_crash(exe, spec, d, workdir, budget=160):
         calls[0] += 1
         dd = dict(d, tape=tape, comments=[])
         write_replay(tmp, dd)
-        return replay_once(exe, spec, tmp, timeout=60)[0]
+        return replay_once(exe, spec, tmp, timeout=30)[0]
 
     tape = list(d['tape'])
+    if any('hang' in cm for cm in d.get('comments', [])):
+        budget = min(budget, 24)  # every replay of a hang costs a watchdog period
     if not fails(tape):
         return d, calls[0], False
     # shortest failing prefix
